@@ -11,6 +11,14 @@ CLAIMED = {
    text="Deductive, partial: (a) the four header converters copy every column to the like-named field (a swapped or dropped field fails); (b) in Archive/Update the in-memory header that the incremental re-index substitutes for what it reads back equals, field by field, the header that is sealed and written (no store between the copy and SignHeader) -- the mechanism that keeps the live index equal to a rebuild; (c) the rebuild in fs.Initialize starts at position 0 into a purged index with the non-initializing name handling. The representation invariant 'index = replay(tape)' over all histories is NOT mechanised (index-view contracts of DESIGN 4.1 not built).",
    note="Assumed: json/tar header round-trip, SQL specs. Undecided: Rep/LastIdx/RootCache invariants, Delete/Move in-memory copies (slice elements), symlink rows, root spelling sigma.",
    design="4.1"),
+ "C02": dict(
+   text="Deductive, partial: every successful Rename of a writable instance performs exactly one Move (after optionally removing the destination), for every outcome of every lookup; operation counters force every function between the API and the operations layer to declare what it calls. The full decision tables of DESIGN 4.2 (reject conditions and effects of every method against the reference semantics) are NOT built.",
+   note="Undecided: reject/accept tables for Create/OpenFile/Mkdir/MkdirAll/Remove/attribute changes, names preserved, File.sync resurrection of tombstones. Known defects on the pinned tree not yet decided by an obligation: Mkdir/Create under a regular file, MkdirAll creates only the leaf, OpenFile(O_CREATE|O_EXCL) on a missing file reports not-exist.",
+   design="4.2"),
+ "C12": dict(
+   text="Deductive for the Go parts, bounded for the SQL: Rename is proved to refuse every destination below the source (string theory over cleaned paths) without writing; the child selection of recursive remove/rename (GetHeaderChildren) and the key rewrite (MoveHeader) are executed exhaustively on the real SQLite over all small index views of an adversarial name alphabet (_, %, case pairs, multi-byte, space, dot, prefix-related siblings) and compared with the set comprehension of their contracts -- labelled bounded, not proved.",
+   note="Bounded scope: <= 2 rows per view (thorough 3), alphabet of 19 names, depth <= 3. Undecided: Delete/Move record sets and the new-name formula of Operations.Move (slice/element reasoning not built), symlink rows.",
+   design="4.12"),
  "C03": dict(
    text="Deductive, partial: RemoveSuffix(AddSuffix(n)) = n for every name and every known format pair (string lemma over the two function contracts, each proved against its body); the indexer strips the suffix exactly from content-carrying records and the writers add it only together with the size record; the stored size is the recorded content length whenever the record is present; a member whose size was computed from content has that content written (shared with C05).",
    note="Assumed: codec/cipher inverses and determinism of encoded length (library behaviour, DESIGN 3.5), strconv.Atoi/Itoa as inverse functions. Undecided: two-pass parameter equality, close order, Fetch's inverse reader stack, Compress level table.",
@@ -58,12 +66,12 @@ CLAIMED = {
 }
 
 NOT_YET = {
- "C02": "not yet built (planned, DESIGN 4.2)",
+
 
 
  
  "C11": "not yet built (planned, DESIGN 4.11)",
- "C12": "not yet built (planned, DESIGN 4.12)",
+
 
  "C17": "not yet built (planned, DESIGN 4.17)",
  "C18": "No contract within reach can express or decide it: every clause quantifies over third-party cryptography (age scrypt, go-crypto S2K, minisign KDF) for all passwords; the stfs code involved is format dispatch only (DESIGN section 5).",
